@@ -602,6 +602,119 @@ fn fresh_keys_round(case_seed: u64, r: &mut Report) {
     r.eval(hash_combine(case_seed, 0xF2E5), true);
 }
 
+/// A prefix scan over a large key population is still one operation: with two writes on keys of
+/// the same class ordered in real time (the first returned before the second was invoked), a scan
+/// must not show the effect of the second without the first. Writers toggle pairs of keys that
+/// lie far apart in key order (`lo` first, then `hi`, removed in the opposite order - and the
+/// mirror image); scanners list the whole prefix (2 200 - 3 600 passive keys in between).
+fn bigscan_round(case_seed: u64, r: &mut Report) {
+    use std::sync::atomic::{AtomicBool, AtomicU64, Ordering as AO};
+    let mut rng = Rng::new(case_seed);
+    let passive = 2_200 + rng.below(1_400);
+    let writers = 1 + rng.below(3);
+    let scanners = 1 + rng.below(3);
+    let prefix = *rng.pick(&["bs:", "node:bs", "k:"]);
+    let store = Arc::new(TensorStore::new());
+    for i in 0..passive {
+        let _ = store.put(format!("{}{:05}", prefix, i), make_value(wid_for(0, i as u64 + 1, Shape::Plain), Shape::Plain));
+    }
+    // pair w: lo in the first quarter of the key order, hi in the last quarter
+    let pairs: Vec<(String, String, bool)> = (0..writers)
+        .map(|w| {
+            let lo = rng.below(passive / 4);
+            let hi = passive - 1 - rng.below(passive / 4);
+            (format!("{}{:05}w{}", prefix, lo, w), format!("{}{:05}w{}", prefix, hi, w), rng.bool())
+        })
+        .collect();
+    let stop = Arc::new(AtomicBool::new(false));
+    let cycles_done = Arc::new(AtomicU64::new(0));
+    let barrier = Arc::new(Barrier::new(writers + scanners));
+    let scans_each = 30 + rng.below(40) as u64;
+    let scanners_done = Arc::new(AtomicU64::new(0));
+    let mut handles = Vec::new();
+    for w in 0..writers {
+        let (store, stop, barrier, cycles_done) = (store.clone(), stop.clone(), barrier.clone(), cycles_done.clone());
+        let (lo, hi, lo_first) = pairs[w].clone();
+        handles.push(std::thread::spawn(move || {
+            barrier.wait();
+            let (first, second) = if lo_first { (lo, hi) } else { (hi, lo) };
+            for c in 0..u64::MAX {
+                if stop.load(AO::Relaxed) {
+                    break;
+                }
+                let wid = wid_for(w + 1, c + 1, Shape::Plain);
+                let _ = store.put(first.clone(), make_value(wid, Shape::Plain));
+                let _ = store.put(second.clone(), make_value(wid, Shape::Plain));
+                let _ = store.delete(&second);
+                let _ = store.delete(&first);
+                cycles_done.fetch_add(1, AO::Relaxed);
+            }
+            Vec::new()
+        }));
+    }
+    for sc in 0..scanners {
+        let (store, stop, barrier, scanners_done) = (store.clone(), stop.clone(), barrier.clone(), scanners_done.clone());
+        let pairs = pairs.clone();
+        let prefix = prefix.to_string();
+        handles.push(std::thread::spawn(move || {
+            barrier.wait();
+            let mut out: Vec<(String, String)> = Vec::new();
+            let (mut scans, mut partial) = (0u64, 0u64);
+            while scans < scans_each && !stop.load(AO::Relaxed) {
+                let listed: std::collections::HashSet<String> = store.scan(&prefix).into_iter().collect();
+                scans += 1;
+                let n_passive = listed.iter().filter(|k| !k.contains('w')).count();
+                if n_passive != passive {
+                    out.push(("bigscan:passive-keys-missing-or-duplicated".into(), format!("scan({:?}) listed {} of the {} keys that nobody touches", prefix, n_passive, passive)));
+                }
+                for (lo, hi, lo_first) in &pairs {
+                    let (first, second) = if *lo_first { (lo, hi) } else { (hi, lo) };
+                    let (f, s2) = (listed.contains(first), listed.contains(second));
+                    if f && !s2 {
+                        partial += 1;
+                    }
+                    if s2 && !f {
+                        out.push((
+                            "bigscan:scan-shows-later-write-without-earlier-one".into(),
+                            format!(
+                                "scan({:?}) over {} keys (scanner {}) listed {} but not {}: the writer always puts {} first and deletes it last, each call returning before the next starts",
+                                prefix, passive, sc, second, first, first
+                            ),
+                        ));
+                    }
+                }
+                if !out.is_empty() {
+                    stop.store(true, AO::Relaxed);
+                    break;
+                }
+            }
+            if scanners_done.fetch_add(1, AO::SeqCst) + 1 == scanners as u64 {
+                stop.store(true, AO::Relaxed);
+            }
+            out.push(("#stats".into(), format!("{} {}", scans, partial)));
+            out
+        }));
+    }
+    let replay = json!({"part": "bigscan", "case_seed": case_seed});
+    let mut scans_total = 0u64;
+    for h in handles {
+        for (sig, d) in h.join().expect("worker") {
+            if sig == "#stats" {
+                let mut it = d.split(' ');
+                let sc: u64 = it.next().unwrap().parse().unwrap();
+                scans_total += sc;
+                r.count("bigscan_scans", sc);
+                r.count("bigscan_scans_that_saw_a_half_done_pair", it.next().unwrap().parse().unwrap());
+            } else {
+                r.violation(sig, d, replay.clone());
+            }
+        }
+    }
+    r.count("bigscan_rounds", 1);
+    r.count("bigscan_writer_cycles", cycles_done.load(AO::Relaxed));
+    r.eval(hash_combine(case_seed, scans_total ^ 0xB165), true);
+}
+
 /// Engine layered on the store: VectorEngine single-key operations on 1-3 contended keys.
 /// Every stored vector is uniform (all elements = write id), so a torn or mixed read is visible.
 fn engine_round(case_seed: u64, r: &mut Report) {
@@ -718,6 +831,7 @@ fn main() {
                 "parked" => parked_round(s, &mut total, &args),
                 "engines" => engine_round(s, &mut total),
                 "fresh" => fresh_keys_round(s, &mut total),
+                "bigscan" => bigscan_round(s, &mut total),
                 "sequential" => sequential_round(s, &mut total),
                 _ => stress_round(s, &mut total, &args),
             }
@@ -751,6 +865,11 @@ fn main() {
             let rep = par_cases(outer, args.seed ^ 0xF5, n, args.budget(20, 240), |_i, s, r| fresh_keys_round(s, r));
             total.merge(rep);
         }
+        if part == "all" || part == "bigscan" || part == "stress" {
+            let n = args.by_tier(60u64, 2_000u64);
+            let rep = par_cases(outer, args.seed ^ 0xB5, n, args.budget(20, 200), |_i, s, r| bigscan_round(s, r));
+            total.merge(rep);
+        }
         if part == "all" || part == "sequential" {
             let n = args.by_tier(300u64, 5_000u64);
             let rep = par_cases(2, args.seed ^ 0x99, n, args.budget(20, 120), |_i, s, r| sequential_round(s, r));
@@ -759,16 +878,16 @@ fn main() {
     }
     let meta = Meta {
         property: "C11",
-        rule: "stress round = one real TensorStore, 2-8 OS threads x 6-19 operations on 1-4 contended keys of classes plain/emb(384-dim slab vector, other dim, none)/node/table/edge/_cache, non-durable or durable (manual / immediate sync), half of the rounds with seeded jitter at the put_durable/delete_durable hook points; every call recorded at the client boundary (atomic tick before and after); values self-describing (write id in every field and vector element). Oracles: value integrity per read, Wing-Gong linearizability per key (scan decomposed per key), recovered-state (latest checkpoint + log; durable rounds take checkpoints concurrently with the writers) == live state after quiescence. Distinct = hash of the observed call order (thread, op, key by call tick); non-trivial = at least two operations of different threads on one key overlapped in time. parked rounds = the deterministic two-writer schedule at put_durable:after_log; sequential rounds = single-thread register semantics; fresh rounds = 3-8 threads creating 4-15 distinct new keys each at the same instant, every key read back at quiescence; engine rounds = the same history check on VectorEngine::{store_embedding,get_embedding,delete_embedding,exists} over one shared store.",
+        rule: "stress round = one real TensorStore, 2-8 OS threads x 6-19 operations on 1-4 contended keys of classes plain/emb(384-dim slab vector, other dim, none)/node/table/edge/_cache, non-durable or durable (manual / immediate sync), half of the rounds with seeded jitter at the put_durable/delete_durable hook points; every call recorded at the client boundary (atomic tick before and after); values self-describing (write id in every field and vector element). Oracles: value integrity per read, Wing-Gong linearizability per key (scan decomposed per key), recovered-state (latest checkpoint + log; durable rounds take checkpoints concurrently with the writers) == live state after quiescence. Distinct = hash of the observed call order (thread, op, key by call tick); non-trivial = at least two operations of different threads on one key overlapped in time. parked rounds = the deterministic two-writer schedule at put_durable:after_log; sequential rounds = single-thread register semantics; fresh rounds = 3-8 threads creating 4-15 distinct new keys each at the same instant, every key read back at quiescence; bigscan rounds = 1-3 writers toggling pairs of keys that lie >1000 keys apart under one prefix of 2200-3600 passive keys (first key put first and deleted last, every call returning before the next starts) against 1-3 scanners of the whole prefix: a scan must never list the second key of a pair without the first, nor miss a passive key; engine rounds = the same history check on VectorEngine::{store_embedding,get_embedding,delete_embedding,exists} over one shared store.",
         assumptions: vec![
             "the Ok/NotFound result of delete is not judged (Delete is modelled as a blind write); a failed delete records no event".into(),
-            "a prefix scan is judged per key (each listed/absent contended key is a read inside the scan's interval), not as an atomic snapshot".into(),
+            "in stress rounds a prefix scan is judged per key (each listed/absent contended key is a read inside the scan's interval); its atomicity across keys is judged in the bigscan rounds, for keys of one class (a prefix spanning several slabs - metadata, entity index, cache ring - is assembled from one atomic listing per slab)".into(),
             "TensorStore::len/ops statistics are never part of an oracle".into(),
         ],
         floors: if args.replay.is_some() || part != "all" {
             vec![("evaluations", 5)]
         } else {
-            vec![("events_recorded", 5_000), ("rounds_with_overlapping_ops", 100), ("key_histories_linearizable", 200), ("parked_at_after_log", 5), ("durable_rounds_recovered", 20), ("durable_rounds_with_concurrent_checkpoint", 10), ("sequential_reads_checked", 500), ("engine_key_histories_linearizable", 100), ("fresh_keys_read_back", 2_000)]
+            vec![("events_recorded", 5_000), ("rounds_with_overlapping_ops", 100), ("key_histories_linearizable", 200), ("parked_at_after_log", 5), ("durable_rounds_recovered", 20), ("durable_rounds_with_concurrent_checkpoint", 10), ("sequential_reads_checked", 500), ("engine_key_histories_linearizable", 100), ("fresh_keys_read_back", 2_000), ("bigscan_scans", 2_000), ("bigscan_scans_that_saw_a_half_done_pair", 20)]
         },
         exhaustive: false,
     };
